@@ -1,8 +1,6 @@
 package checker
 
 import (
-	"sort"
-
 	"github.com/jsightapi/jsight-schema-core/bytes"
 	"github.com/jsightapi/jsight-schema-core/errs"
 	"github.com/jsightapi/jsight-schema-core/json"
@@ -37,12 +35,7 @@ func CheckRootSchema(rootSchema *ischema.ISchema) {
 	}
 
 	types := rootSchema.TypesList()
-	names := make([]string, 0, len(types))
-	for name := range types {
-		names = append(names, name)
-	}
-	sort.Strings(names)
-	for _, name := range names {
+	for _, name := range rootSchema.TypeNames() {
 		c.checkType(name, types[name], types)
 	}
 }
